@@ -171,20 +171,28 @@ def check_process_defaults(kind: int) -> bool:
     return p.init_main_module is True and p._start_method == "loky_init_main"
 
 
-def check_prepare_initializer(kind: int, viz: bool, a: int) -> bool:
+_INIT_EXC = [None, ValueError, ImportError, ModuleNotFoundError, KeyboardInterrupt, SystemExit]
+
+
+def check_prepare_initializer(kind: int, viz: bool, a: int, user_raises: int = 0, viz_raises: int = 0) -> bool:
     """
-    pre: 0 <= kind <= 2
+    pre: 0 <= kind <= 2 and 0 <= user_raises <= 5 and 0 <= viz_raises <= 5
     post: _
     """
     import loky.initializers as li
     kind = _conc(kind, 2)
+    uexc, vexc = _INIT_EXC[_conc(user_raises, 5)], _INIT_EXC[_conc(viz_raises, 5)]
     calls = []
 
     def user_init(*args):
         calls.append(("user", args))
+        if uexc is not None:
+            raise uexc("user initializer failed")
 
     def viz_init(*args):
         calls.append(("viz", args))
+        if vexc is not None:
+            raise vexc("profiler initializer failed")
 
     saved = li._make_viztracer_initializer_and_initargs
     li._make_viztracer_initializer_and_initargs = lambda: (viz_init, ("cfg",)) if viz else (None, ())
@@ -199,9 +207,22 @@ def check_prepare_initializer(kind: int, viz: bool, a: int) -> bool:
         return False
     if init is None:
         return kind == 0 and not viz and args == ()
-    init(*args)  # the way _process_worker calls it
-    want = ([("user", (a, 2))] if kind == 1 else []) + ([("viz", ("cfg",))] if viz else [])
-    return calls == want  # Nones filtered, order kept, each with its own initargs
+    # whatever an element of the chain raises reaches _process_worker (which then ends the worker and thereby
+    # breaks the pool): no failure of an initializer may be swallowed on the way
+    expect = uexc if kind == 1 and uexc is not None else (vexc if viz else None)
+    try:
+        init(*args)  # the way _process_worker calls it
+        raised = None
+    except BaseException as e:  # noqa: the set of exception types is the harness's own finite list
+        if type(e) not in (ValueError, ImportError, ModuleNotFoundError, KeyboardInterrupt, SystemExit):
+            raise
+        raised = type(e)
+    if raised is not expect:
+        return False
+    want = ([("user", (a, 2))] if kind == 1 else [])
+    if not (kind == 1 and uexc is not None):
+        want += [("viz", ("cfg",))] if viz else []
+    return calls == want  # Nones filtered, order kept, each with its own initargs, nothing after a failure
 
 
 def check_fork_exec_twice(first: List[int], second: List[int], overlay: List[int]) -> bool:
